@@ -404,6 +404,17 @@ func ruleFrmMethod(c *Ctx, r *R) {
 			want = "<-f.Args +1>"
 		}
 		r.check(argc == want, "argc "+cs, pos, "bound method takes f.Args-1 arguments (negative when variadic)", "newMethod registers "+argc+" arguments on path ["+cs+"], expected "+want)
+		if want == "<-f.Args +1>" {
+			// a variadic bound method packs its surplus arguments itself (call() uses the
+			// wrapper's VariadicType), so the wrapper must carry the method's element type
+			carries := false
+			for _, e := range o.Eff {
+				if e.Kind == "store" && e.Target != nil && strings.HasSuffix(e.Target.String(), ".VariadicType") && strings.Contains(e.Target.String(), "newFunc(") && e.Value != nil && e.Value.String() == "f.VariadicType" {
+					carries = true
+				}
+			}
+			r.check(carries, "variadic element type", pos, "the wrapper's VariadicType is the method's", "newMethod does not hand the method's VariadicType on to the bound-method wrapper: the surplus arguments of t.M(3) with M(xs ...float64) are packed into a slice with no element type, so untyped constants are not converted (xs[0]/2 is an integer division)")
+		}
 		fl := o.Ret[0].Args[2].Aux.(*ast.FuncLit)
 		st := o.Clone()
 		st.Done, st.Ret, st.Eff, st.X = "", nil, nil, nil
@@ -533,5 +544,71 @@ func ruleFrmRedefine(c *Ctx, r *R) {
 	}
 	if n < 3 {
 		r.undecided("redefine", "-", fmt.Sprintf("only %d definition paths found", n))
+	}
+}
+
+// FRM-PARAMSLOT: compile("func") gives every parameter a slot of its own, so the frame
+// (slots = Locals.Cap()) is never smaller than the argument count: parameters are
+// registered with Locals.Shadow, which always allocates, never with Locals.Index, which
+// returns the slot of an earlier parameter of the same name (func f(_ int, _ int)).
+func ruleFrmParamSlot(c *Ctx, r *R) {
+	cs, err := c.compileSwitch()
+	if err != nil {
+		r.undecided("compile", "-", err.Error())
+		return
+	}
+	fsc := cs.ByLabel["func"]
+	if fsc == nil {
+		r.undecided("func", "-", "no compile-case")
+		return
+	}
+	nShadow, nIndex := 0, 0
+	var clauses []ast.Node = []ast.Node{fsc.Clause}
+	// new helpers called from the clause
+	ast.Inspect(fsc.Clause, func(n ast.Node) bool {
+		if call, ok := n.(*ast.CallExpr); ok {
+			if o := c.Callee(call); o != nil && c.isNewHelper(o) {
+				if h := c.DeclOf(o); h != nil && h.Body != nil {
+					clauses = append(clauses, h.Body)
+				}
+			}
+		}
+		return true
+	})
+	for _, cl := range clauses {
+		ast.Inspect(cl, func(n ast.Node) bool {
+			rs, ok := n.(*ast.RangeStmt)
+			if !ok {
+				return true
+			}
+			v, ok := rs.Value.(*ast.Ident)
+			if !ok {
+				return true
+			}
+			ast.Inspect(rs.Body, func(m ast.Node) bool {
+				call, ok := m.(*ast.CallExpr)
+				if !ok || len(call.Args) != 1 || nosp(c.Src(call.Args[0])) != v.Name+".Text" {
+					return true
+				}
+				sel, ok := unparen(call.Fun).(*ast.SelectorExpr)
+				if !ok || !strings.HasSuffix(nosp(c.Src(sel.X)), ".Locals") {
+					return true
+				}
+				switch c.CalleeName(call) {
+				case "lookup.Shadow":
+					nShadow++
+				case "lookup.Index":
+					nIndex++
+					r.fail("param slot "+c.Src(call.Args[0]), c.Pos(call), "compile(\"func\") registers a parameter with Locals.Index, which reuses the slot of an earlier parameter of the same name: func f(_ int, _ int) gets one slot for two arguments, so the frame is smaller than its arguments and the call fails (or a later local aliases an argument); Locals.Shadow always allocates")
+				}
+				return true
+			})
+			return true
+		})
+	}
+	if nShadow > 0 && nIndex == 0 {
+		r.ok("param slot", "each parameter is registered with Locals.Shadow (always allocates)")
+	} else if nShadow == 0 && nIndex == 0 {
+		r.undecided("param slot", c.Pos(fsc.Clause), "the registration of the parameters in the function's local table was not found")
 	}
 }
